@@ -10,48 +10,48 @@ Import ListNotations.
 Local Open Scope Z_scope.
 
 (* ------------------------------------------------------------------ deep form *)
-Definition PC := V n_pc 21.
-Definition A := V n_areg 32.
-Definition B := V n_breg 32.
-Definition O := V n_oreg 32.
-Definition DD := V n_ddata 32.
-Definition x_opr (n : Z) := Or O (C n).                       (* opr_d = oreg_q | operand *)
-Definition x_pc1 := Add 21 (C 1) PC.
+Definition xPC := V n_pc 21.
+Definition xA := V n_areg 32.
+Definition xB := V n_breg 32.
+Definition xO := V n_oreg 32.
+Definition xDD := V n_ddata 32.
+Definition x_opr (n : Z) := Or xO (C n).                       (* opr_d = oreg_q | operand *)
+Definition x_pc1 := Add 21 (C 1) xPC.
 Definition x_br (n : Z) := Add 21 x_pc1 (Sel 0 21 (x_opr n)).
-Definition x_fetch := Trunc 8 (Shr 32 (ArrSel n_mem 32 (Sel 2 19 PC)) (Shl 5 (Sel 0 2 PC) (C 3))).
+Definition x_fetch := Trunc 8 (Shr 32 (ArrSel n_mem 32 (Sel 2 19 xPC)) (Shl 5 (Sel 0 2 xPC) (C 3))).
 
 Definition spec_pc (op n : Z) : vexp :=
   if op =? 9 then x_br n
-  else if op =? 10 then Cond (Eq (C 0) A) (x_br n) x_pc1
-  else if op =? 11 then Cond (Gts 32 (C 0) A) (x_br n) x_pc1
-  else if (op =? 13) && (n =? 0) then Sel 0 21 B
+  else if op =? 10 then Cond (Eq (C 0) xA) (x_br n) x_pc1
+  else if op =? 11 then Cond (Gts 32 (C 0) xA) (x_br n) x_pc1
+  else if (op =? 13) && (n =? 0) then Sel 0 21 xB
   else x_pc1.
 Definition spec_oreg (op n : Z) : vexp :=
   if op =? 14 then Shl 32 (x_opr n) (C 4)
   else if op =? 15 then Or (C 4294967040) (Shl 32 (x_opr n) (C 4))
   else C 0.
 Definition spec_areg (op n : Z) : vexp :=
-  if (op =? 0) || (op =? 6) then DD
+  if (op =? 0) || (op =? 6) then xDD
   else if op =? 3 then x_opr n
   else if op =? 5 then x_br n
-  else if (op =? 13) && (n =? 1) then Add 32 A B
-  else if (op =? 13) && (n =? 2) then Sub 32 A B
-  else A.
+  else if (op =? 13) && (n =? 1) then Add 32 xA xB
+  else if (op =? 13) && (n =? 2) then Sub 32 xA xB
+  else xA.
 Definition spec_breg (op n : Z) : vexp :=
-  if (op =? 1) || (op =? 7) then DD else if op =? 4 then x_opr n else B.
+  if (op =? 1) || (op =? 7) then xDD else if op =? 4 then x_opr n else xB.
 Definition spec_daddr (op n : Z) : vexp :=
   if op <=? 2 then Sel 0 19 (x_opr n)
-  else if op =? 6 then Add 19 (Sel 0 19 A) (Sel 0 19 (x_opr n))
-  else if (op =? 7) || (op =? 8) then Add 19 (Sel 0 19 B) (Sel 0 19 (x_opr n))
+  else if op =? 6 then Add 19 (Sel 0 19 xA) (Sel 0 19 (x_opr n))
+  else if (op =? 7) || (op =? 8) then Add 19 (Sel 0 19 xB) (Sel 0 19 (x_opr n))
   else C 0.
 Definition spec_we (op : Z) : Z := if (op =? 2) || (op =? 8) then 1 else 0.
 
 Definition spec (k : Z) : design :=
   let op := k / 16 in let n := k mod 16 in
-  {| outputs := [("o_syscall"%string, Sel 0 2 A); ("o_syscall_valid"%string, C (if k =? 211 then 1 else 0))];
+  {| outputs := [("o_syscall"%string, Sel 0 2 xA); ("o_syscall_valid"%string, C (if k =? 211 then 1 else 0))];
      next := [(n_areg, spec_areg op n); (n_breg, spec_breg op n); (n_oreg, spec_oreg op n); (n_pc, spec_pc op n)];
      wires := [(n_fdata, x_fetch); (n_ddata, ArrSel n_mem 32 (spec_daddr op n))];
-     mem_writes := [(n_mem, (C (spec_we op), (spec_daddr op n, A)))];
+     mem_writes := [(n_mem, (C (spec_we op), (spec_daddr op n, xA)))];
      nx := 0 |}.
 
 (* ------------------------------------------------------------------ shallow form *)
@@ -100,7 +100,7 @@ Definition ref_syscall (s : rstate) : Z := r_areg s mod 4.
    presents state s, fetched byte k and read data dd *)
 Definition wf (s : rstate) : Prop :=
   0 <= r_pc s < M21 /\ 0 <= r_areg s < M32 /\ 0 <= r_breg s < M32 /\ 0 <= r_oreg s < M32 /\
-  (forall a, 0 <= rd (r_mem s) a < M32).
+  (forall a, 0 <= a -> 0 <= rd (r_mem s) a < M32).
 
 Record env_ok (e : env) (s : rstate) (dd : Z) : Prop := {
   ok_pc : var e n_pc = r_pc s; ok_a : var e n_areg = r_areg s; ok_b : var e n_breg = r_breg s;
@@ -115,30 +115,30 @@ Section Sem.
   Variables (e : env) (s : rstate) (dd : Z).
   Hypothesis (W : wf s) (E : env_ok e s dd).
 
-  Lemma ev_PC : eval e PC = r_pc s.
-  Proof. destruct W as [? _]. cbn [eval PC]. rewrite (ok_pc _ _ _ E). pows. apply Z.mod_small. assumption. Qed.
-  Lemma ev_A : eval e A = r_areg s.
-  Proof. destruct W as [_ [? _]]. cbn [eval A]. rewrite (ok_a _ _ _ E). pows. apply Z.mod_small. assumption. Qed.
-  Lemma ev_B : eval e B = r_breg s.
-  Proof. destruct W as [_ [_ [? _]]]. cbn [eval B]. rewrite (ok_b _ _ _ E). pows. apply Z.mod_small. assumption. Qed.
-  Lemma ev_O : eval e O = r_oreg s.
-  Proof. destruct W as [_ [_ [_ [? _]]]]. cbn [eval O]. rewrite (ok_o _ _ _ E). pows. apply Z.mod_small. assumption. Qed.
-  Lemma ev_DD : 0 <= dd < M32 -> eval e DD = dd.
-  Proof. intros H. cbn [eval DD]. rewrite (ok_dd _ _ _ E). pows. apply Z.mod_small. assumption. Qed.
+  Lemma ev_PC : eval e xPC = r_pc s.
+  Proof. destruct W as [? _]. cbn [eval xPC]. rewrite (ok_pc _ _ _ E). pows. apply Z.mod_small. assumption. Qed.
+  Lemma ev_A : eval e xA = r_areg s.
+  Proof. destruct W as [_ [? _]]. cbn [eval xA]. rewrite (ok_a _ _ _ E). pows. apply Z.mod_small. assumption. Qed.
+  Lemma ev_B : eval e xB = r_breg s.
+  Proof. destruct W as [_ [_ [? _]]]. cbn [eval xB]. rewrite (ok_b _ _ _ E). pows. apply Z.mod_small. assumption. Qed.
+  Lemma ev_O : eval e xO = r_oreg s.
+  Proof. destruct W as [_ [_ [_ [? _]]]]. cbn [eval xO]. rewrite (ok_o _ _ _ E). pows. apply Z.mod_small. assumption. Qed.
+  Lemma ev_DD : 0 <= dd < M32 -> eval e xDD = dd.
+  Proof. intros H. cbn [eval xDD]. rewrite (ok_dd _ _ _ E). pows. apply Z.mod_small. assumption. Qed.
   Lemma ev_opr n : eval e (x_opr n) = r_opr s n.
-  Proof. unfold x_opr, r_opr. cbn [eval]. fold O. rewrite ev_O. reflexivity. Qed.
+  Proof. unfold x_opr, r_opr. cbn [eval]. fold xO. rewrite ev_O. reflexivity. Qed.
   Lemma ev_pc1 : eval e x_pc1 = r_pc1 s.
-  Proof. unfold x_pc1, r_pc1. cbn [eval]. fold PC. rewrite ev_PC. pows. f_equal. lia. Qed.
+  Proof. unfold x_pc1, r_pc1. cbn [eval]. fold xPC. rewrite ev_PC. pows. f_equal. lia. Qed.
   Lemma ev_br n : eval e (x_br n) = r_br s n.
   Proof. unfold x_br, r_br. cbn [eval]. fold x_pc1. fold (x_opr n). rewrite ev_pc1, ev_opr. pows. rewrite Z.div_1_r. reflexivity. Qed.
 
   Lemma ev_fetch : eval e x_fetch = r_fetch s.
   Proof.
-    destruct W as [Hpc [_ [_ [_ Hm]]]]. unfold x_fetch, r_fetch. cbn [eval]. fold PC. rewrite ev_PC. pows.
+    destruct W as [Hpc [_ [_ [_ Hm]]]]. unfold x_fetch, r_fetch. cbn [eval]. fold xPC. rewrite ev_PC. pows.
     rewrite (ok_mem _ _ _ E). rewrite Z.div_1_r.
     assert (Hq : 0 <= r_pc s / 4 < M19) by (unfold M19, M21 in *; split; [apply Z.div_pos; lia | apply Z.div_lt_upper_bound; lia]).
     rewrite (Z.mod_small (r_pc s / 4) M19) by exact Hq.
-    set (w := rd (r_mem s) (r_pc s / 4)). assert (Hw : 0 <= w < M32) by apply Hm.
+    set (w := rd (r_mem s) (r_pc s / 4)). assert (Hw : 0 <= w < M32) by (apply Hm; lia).
     rewrite (Z.mod_small w M32) by exact Hw.
     assert (Hr : 0 <= r_pc s mod 4 < 4) by (apply Z.mod_pos_bound; lia).
     rewrite (Z.mod_small (r_pc s mod 4 * 8) 32) by lia.
@@ -156,17 +156,17 @@ Section Sem.
     destruct W as [_ [Ha [Hb _]]]. unfold spec_pc, ref_pc.
     destruct (op =? 9); [apply ev_br|].
     destruct (op =? 10).
-    { cbn [eval]. fold A. rewrite ev_A, ev_br, ev_pc1. rewrite (Z.eqb_sym 0).
+    { cbn [eval]. fold xA. rewrite ev_A, ev_br, ev_pc1. rewrite (Z.eqb_sym 0).
       destruct (r_areg s =? 0); reflexivity. }
     destruct (op =? 11).
-    { cbn [eval]. fold A. rewrite ev_A, ev_br, ev_pc1. unfold signed. change (2 ^ (32 - 1)) with 2147483648. pows.
+    { cbn [eval]. fold xA. rewrite ev_A, ev_br, ev_pc1. unfold signed. change (2 ^ (32 - 1)) with 2147483648. pows.
       change (0 <? 2147483648) with true. cbv iota.
       destruct (r_areg s <? 2147483648) eqn:L; destruct (2147483648 <=? r_areg s) eqn:G;
         try (apply Z.ltb_lt in L); try (apply Z.ltb_ge in L); try (apply Z.leb_le in G); try (apply Z.leb_gt in G); try lia.
       - replace (r_areg s <? 0) with false by (symmetry; apply Z.ltb_ge; lia). reflexivity.
       - replace (r_areg s - M32 <? 0) with true by (symmetry; apply Z.ltb_lt; unfold M32 in *; lia). reflexivity. }
     destruct ((op =? 13) && (n =? 0)).
-    { cbn [eval]. fold B. rewrite ev_B. pows. rewrite Z.div_1_r. reflexivity. }
+    { cbn [eval]. fold xB. rewrite ev_B. pows. rewrite Z.div_1_r. reflexivity. }
     apply ev_pc1.
   Qed.
 
@@ -182,8 +182,8 @@ Section Sem.
     destruct ((op =? 0) || (op =? 6)); [apply ev_DD; assumption|].
     destruct (op =? 3); [apply ev_opr|].
     destruct (op =? 5); [apply ev_br|].
-    destruct ((op =? 13) && (n =? 1)); [cbn [eval]; fold A; fold B; rewrite ev_A, ev_B; pows; reflexivity|].
-    destruct ((op =? 13) && (n =? 2)); [cbn [eval]; fold A; fold B; rewrite ev_A, ev_B; pows; reflexivity|].
+    destruct ((op =? 13) && (n =? 1)); [cbn [eval]; fold xA; fold xB; rewrite ev_A, ev_B; pows; reflexivity|].
+    destruct ((op =? 13) && (n =? 2)); [cbn [eval]; fold xA; fold xB; rewrite ev_A, ev_B; pows; reflexivity|].
     apply ev_A.
   Qed.
 
@@ -198,8 +198,15 @@ Section Sem.
   Proof.
     unfold spec_daddr, r_daddr.
     destruct (op <=? 2); [cbn [eval]; fold (x_opr n); rewrite ev_opr; pows; rewrite Z.div_1_r; reflexivity|].
-    destruct (op =? 6); [cbn [eval]; fold (x_opr n); fold A; rewrite ev_opr, ev_A; pows; rewrite !Z.div_1_r; reflexivity|].
-    destruct ((op =? 7) || (op =? 8)); [cbn [eval]; fold (x_opr n); fold B; rewrite ev_opr, ev_B; pows; rewrite !Z.div_1_r; reflexivity|].
+    destruct (op =? 6); [cbn [eval]; fold (x_opr n); fold xA; rewrite ev_opr, ev_A; pows; rewrite !Z.div_1_r; reflexivity|].
+    destruct ((op =? 7) || (op =? 8)); [cbn [eval]; fold (x_opr n); fold xB; rewrite ev_opr, ev_B; pows; rewrite !Z.div_1_r; reflexivity|].
     reflexivity.
   Qed.
 End Sem.
+
+Lemma r_daddr_nonneg s op n : 0 <= r_daddr s op n.
+Proof.
+  unfold r_daddr, M19. destruct (op <=? 2); [apply Z.mod_pos_bound; lia|]. destruct (op =? 6); [apply Z.mod_pos_bound; lia|].
+  destruct ((op =? 7) || (op =? 8)); [apply Z.mod_pos_bound; lia | lia].
+Qed.
+
